@@ -1,3 +1,3 @@
 From Coq Require Import Extraction ExtrOcamlBasic ZArith.
 From ScV Require Import Base.CInt C14.ShmemModel.
-Extraction "c14_model.ml" attach_explicit attach_split_type grid_position rank_report writer_of prun pinit conflict mem ph l_attach l_detach live l_get comms_dup l_dup l_free_dup calls_dup shmem_allgather_sig sig_bytes.
+Extraction "c14_model.ml" attach_explicit attach_split_type grid_position rank_report writer_of prun pinit conflict mem ph l_attach l_detach live l_get comms_dup l_dup l_free_dup calls_dup shmem_allgather_sig sig_bytes hstep hrun hinit h_division h_live in_force write_start.
